@@ -14,7 +14,7 @@ from mc.common import Stats
 from mc.ir import PKT, I, D, DM, DR, DEOS, B, F, C, BIN
 
 MODULE = 'mc.props.c18'
-META = [0x5c, 0x5d, 0x5e, 0x2d, 0x2e, 0x0a, 0x5b, 0x24, 0x2a, 0x28]      # \ ] ^ - . \n [ $ * (
+META = [0x5c, 0x5d, 0x5e, 0x5f, 0x2d, 0x2e, 0x0a, 0x5b, 0x24, 0x2a, 0x28]      # \ ] ^ _ - . \n [ $ * (
 
 
 def comps():
@@ -97,8 +97,16 @@ def check_decl(dc, st, tier, only=None):
         unpacked.append(p)
     # concrete assignments: distinct parsed packets, meta-valued ones first
     vals, seen = [], set()
-    order = sorted(range(len(corpus)), key=lambda i: (not (set(corpus[i]) & set(META)), len(corpus[i]), corpus[i]))
-    cap = 6 if tier == 'quick' else 16
+    # concrete assignments: for EVERY metacharacter byte the first parsed packet whose input starts with it
+    # (so that every fixed-bits / literal escape path sees every metacharacter), then the plainest ones
+    order = []
+    for m in META:
+        for i in sorted(range(len(corpus)), key=lambda i: (len(corpus[i]), corpus[i])):
+            if corpus[i][:1] == bytes([m]) and unpacked[i] is not None:
+                order.append(i)
+                break
+    order += sorted(range(len(corpus)), key=lambda i: (len(corpus[i]), corpus[i]))
+    cap = len(META) + (2 if tier == 'quick' else 8)
     for i in order:
         p = unpacked[i]
         if p is None:
